@@ -36,7 +36,11 @@ T = {
  "C18a": ("C18", "gaussianToRaw on >= 2 variables whose UIDs are not consecutive in locator order", "MISSED by C18 quick at the time of seeding (Db-level transforms driven on one variable); harness extension requested", ""),
  "C18b": ("C18", "PCA/MAF on a Db with a selection or undefined values and non-centred variables", "C18 quick", "pca:factor-mean"),
  "C19a": ("C19", "calculator run without input Db failing after pre-processing (e.g. non-conditional simtub with a structure turning bands cannot simulate)", "C19 quick", "rollback:fluid_propagation:addvar#2"),
- "C19b": ("C19", "dbRegression with an explicit auxiliary Db different from the first one", "MISSED by C19 quick at the time of seeding (single-Db scenario only); harness extension requested", ""),
+ "C19b": ("C19", "dbRegression with an explicit auxiliary Db different from the first one", "C19 quick (after adding two-Db scenarios and snapshots of every Db involved; missed before)", "success-changes-input:dbRegression-db2-larger"),
+ "C16a": ("C16", "rotated grid and centered=true in coordinates -> indices", "C16 quick", "coord-roundtrip:centered:rotated"),
+ "C16b": ("C16", "rotated grid with unequal mesh sizes through point_to_grid / index_point_to_grid", "C16 quick", "locate:point_to_grid:rotated"),
+ "C17a": ("C17", ">= 2 variables, constant-total-sill constraint, unconstrained sill matrix not positive definite, larger rescale factor second", "C17 quick", "sill:not-psd:NUGGET:nvar=2"),
+ "C17b": ("C17", "item constraint on a structure that is not the first, an earlier structure pruned, pass not converged within maxiter", "C17 quick", "constraint:violated-after-structure-reduction:sill"),
  "C09b": ("C09", "24/32-bit BMP whose colour-count header field exceeds 256", "MISSED by C09 quick at the time of seeding (BMP reader not in the corpus); harness extension requested", ""),
 }
 for seed, (prop, needs, caught, key) in T.items():
